@@ -553,6 +553,22 @@ func ruleStackAPI(c *Ctx, rule string, trusted map[string]string) {
 				if nilChecked(call, d) || emptinessChecked(fn, recv, d) {
 					continue
 				}
+				// Index(i) under a dominating `i < recv.Size()` test (upward counting loop over the stack)
+				if nm == "Index" && len(call.Call.Args) == 2 {
+					idx := exprStr(call.Call.Args[1])
+					bounded := false
+					for _, b := range fn.Blocks {
+						if iff, ok := b.Instrs[len(b.Instrs)-1].(*ssa.If); ok {
+							cs := exprStr(iff.Cond)
+							if (cs == "("+idx+" < int("+recv+".Size()))" || cs == "("+idx+" < "+recv+".Size())") && (b.Succs[0] == call.Block() || b.Succs[0].Dominates(call.Block())) {
+								bounded = true
+							}
+						}
+					}
+					if bounded {
+						continue
+					}
+				}
 				allOK = false
 			}
 			if allOK {
